@@ -119,7 +119,64 @@ class Join(JoinScenario):
         return None
 
 
+class Twin(PipeScenario):
+    """two independent pipelines with the same node type in one process: neither may influence
+    the other (state shared between instances shows up only here)"""
+    close_intervals = 10.0
+
+    def __init__(self, **p):
+        super().__init__(**p)
+        self.horizon = 2.0 if needs_clock(p["nodes"]) else 0.0
+
+    def site(self):
+        return _site(self.params["nodes"])
+
+    def build(self):
+        from streamz import Stream
+        p = self.params
+        self.srcs = []
+        for name, base in (("S", 0), ("T", 100)):
+            src = Stream(asynchronous=True, loop=self.ioloop)
+            node = src
+            for spec in p["nodes"]:
+                node = self.build_node(node, spec)
+            node.sink(self.make_sink_fn(p["kind"], name))
+            self.srcs.append(src)
+            self.add_producer("p" if name == "S" else "q", src, [base + i for i in range(1, p["n"] + 1)], mode=p["mode"])
+        self.src = self.srcs[0]
+
+    def check_step(self):
+        return self._check(False)
+
+    def check_final(self):
+        return self._check(True)
+
+    def _check(self, final):
+        site = self.site()
+        er = self.emit_raised()
+        if er:
+            return Violation("emit-raised", site, er[0][4], er)
+        for sink, prod in (("S", "p"), ("T", "q")):
+            got = flat(self.delivered(sink))
+            want = self.emitted(prod)
+            info = dict(pipeline=sink, emitted=want, delivered=self.delivered(sink))
+            if len(set(got)) != len(got):
+                return Violation("duplicate", site, "twin", info)
+            if got != want[:len(got)]:
+                return Violation("order" if all(x in want for x in got) else "invented", site, "twin", info)
+            if final and got != want:
+                return Violation("loss", site, "twin", info)
+        if final:
+            pend = [pr.name for pr in self.producers if pr.inflight()]
+            if pend:
+                return Violation("emit-pending", site, "twin", dict(pending=pend))
+        return None
+
+
 def factory(key):
+    if key[0] == "twin":
+        _, nodes, kind, mode, n = key
+        return lambda: Twin(nodes=tuple(nodes.split(",")), kind=kind, mode=mode, n=n)
     if key[0] == "chain":
         _, nodes, kind, mode, n, nprod = key
         return lambda: Chain(nodes=tuple(nodes.split(",")), kind=kind, mode=mode, n=n, nprod=nprod)
@@ -146,6 +203,10 @@ def plan(ctx):
         jobs.append((("chain", "map_async:1", "sync", "burst", 4, 1), 1))
         jobs.append((("chain", "buffer:1", "future", "await", 3, 2), 1))
         jobs.append((("chain", "map_async:2", "native", "await", 2, 2), 0))
+        for a in SINGLE + ["latest_lossless"]:
+            if a == "latest_lossless":
+                continue
+            jobs.append((("twin", a, "sync", "burst", 2), 0))
         for kind in KINDS:
             jobs.append((("join", "zip:1", "", "", kind, "await", 2), 1))
             jobs.append((("join", "union", "buffer:1", "", kind, "await", 2), 1))
@@ -165,6 +226,11 @@ def plan(ctx):
         for a in SINGLE:
             for b in SINGLE:
                 jobs.append((("chain", a + "," + b, "native", "await", 3, 1), 0))
+        for a in SINGLE:
+            heavy = a.startswith(("timed_window", "partition", "delay", "rate_limit"))
+            jobs.append((("twin", a, "sync", "burst", 3), 1 if not heavy else 0))
+            if not heavy:
+                jobs.append((("twin", a, "future", "burst", 2), 0))
         for kind in KINDS:
             for join in ("zip:1", "zip:2", "union"):
                 for l, r in (("", ""), ("buffer:1", ""), ("map_async:1", "buffer:2"), ("buffer:1", "map_async:2")):
